@@ -412,6 +412,12 @@ func (g *gen) scenario(kind string) Scenario {
 	base := uint64(10_000 + r.Intn(1000))
 	nfr := r.Range(1, 4)
 	lastActive := r.Chance(1, 2)
+	if kind == "recent" {
+		// timestamps of the last 20 minutes: the sealed fractions get an occupancy map (distribution) whose
+		// window contains the documents. The only scenario kind whose IDs depend on the wall clock.
+		base = uint64(time.Now().UnixMilli()) - 20*60*1000
+		lastActive = false
+	}
 	switch kind {
 	case "big":
 		nfr = r.Range(1, 2)
@@ -434,6 +440,10 @@ func (g *gen) scenario(kind string) Scenario {
 		default: // overlapping
 			lo = base + uint64(r.Intn(60))
 			hi = lo + uint64(r.Intn(80))
+		}
+		if kind == "recent" {
+			lo = base + uint64(r.Intn(3))*60000
+			hi = lo + uint64(r.Intn(200000))
 		}
 		n := r.Range(1, 40)
 		switch kind {
@@ -1156,6 +1166,11 @@ func main() {
 	}
 	for i := 0; i < nlarge; i++ {
 		kinds = append(kinds, "large-docs")
+	}
+	if os.Getenv("C04_RECENT") != "" {
+		for i := 0; i < 3; i++ {
+			kinds = append(kinds, "recent")
+		}
 	}
 	outs := make([]scenarioOut, len(kinds))
 	var wg sync.WaitGroup
